@@ -54,6 +54,9 @@ pub enum Traffic {
     /// an HTTP request head that never ends and consists of folded continuation lines (obs-fold: lines that
     /// start with a space or a tab), thousands of them
     EndlessFoldedHead,
+    /// the same data-carrying SYN (TCP Fast Open, same sequence number) over and over - a retransmitting client or a
+    /// replayed SYN - and, as the last segment, ordinary data
+    RepeatedSynWithData,
 }
 
 #[derive(Clone, Debug, Serialize, Deserialize)]
@@ -254,6 +257,7 @@ fn stream_of(c: &LongConn) -> Stream {
     let total = c.seg_size * c.n_segs;
     match c.traffic {
         Traffic::EndlessHttpHead => Stream { bytes: http1::endless_head(&mut r, total), from_client: true, syn: true },
+        Traffic::RepeatedSynWithData => Stream { bytes: http1::endless_head(&mut r, total), from_client: true, syn: false },
         Traffic::EndlessFoldedHead => {
             let mut s = String::from("GET /folded HTTP/1.1\r\nHost: folded.example.test\r\nX-Long: a\r\n");
             while s.len() < total {
@@ -394,7 +398,17 @@ fn run_once(s: &Scn, st: &mut RunStats) -> Result<(), Violation> {
                 progressed = true;
                 let sm = &streams[ci];
                 let (from, to, seq, ack) = if sm.from_client { (c.client, c.server, 1001u32.wrapping_add(a as u32), 5001) } else { (c.server, c.client, 5001u32.wrapping_add(a as u32), 1001) };
-                let seg = crate::gen::tcp::data(&h, from, to, seq, ack, sm.bytes[a..b].to_vec(), clock::mono_ns(), 1, pkt::ACK);
+                let seg = if c.traffic == Traffic::RepeatedSynWithData && k + 1 < c.n_segs {
+                    // the same SYN again: sequence number 1000, the stream's first bytes as payload
+                    let mut syn = crate::gen::tcp::syn(&h, c.client, c.server, 1000, 0);
+                    syn.payload = sm.bytes[..c.seg_size.min(sm.bytes.len())].to_vec();
+                    syn
+                } else if c.traffic == Traffic::RepeatedSynWithData {
+                    let n = c.seg_size.min(sm.bytes.len());
+                    crate::gen::tcp::data(&h, from, to, 1001u32.wrapping_add(n as u32), ack, sm.bytes[n..(2 * n).min(sm.bytes.len())].to_vec(), clock::mono_ns(), 1, pkt::ACK)
+                } else {
+                    crate::gen::tcp::data(&h, from, to, seq, ack, sm.bytes[a..b].to_vec(), clock::mono_ns(), 1, pkt::ACK)
+                };
                 let frame = pkt::frame(&seg, Framing::Ethernet);
                 clock::advance_ns(s.gap_ns);
                 delivered += 1;
@@ -517,9 +531,9 @@ impl Prop for C11 {
         let mut conns = vec![];
         for i in 0..m {
             let traffic = match kind {
-                Kind::Tls => *r.pick(&[Traffic::TlsHugeDeclared, Traffic::TlsManyNonHelloRecords, Traffic::TlsManyNonHelloRecords, Traffic::TlsAppDataAfterNonHello, Traffic::TlsAppDataAfterNonHello, Traffic::BinaryAfterSyn, Traffic::RandomNoSyn, Traffic::Completing]),
-                Kind::Tcp => *r.pick(&[Traffic::BinaryAfterSyn, Traffic::EndlessHttpHead, Traffic::RandomNoSyn, Traffic::Completing]),
-                _ => *r.pick(&[Traffic::EndlessHttpHead, Traffic::EndlessFoldedHead, Traffic::TlsManyNonHelloRecords, Traffic::WrongKindThenEndless, Traffic::WrongKindThenEndless, Traffic::EndlessHttpResponseHead, Traffic::BinaryAfterSyn, Traffic::TlsHugeDeclared, Traffic::TlsAppDataAfterNonHello, Traffic::RandomNoSyn, Traffic::Completing]),
+                Kind::Tls => *r.pick(&[Traffic::RepeatedSynWithData, Traffic::TlsHugeDeclared, Traffic::TlsManyNonHelloRecords, Traffic::TlsManyNonHelloRecords, Traffic::TlsAppDataAfterNonHello, Traffic::TlsAppDataAfterNonHello, Traffic::BinaryAfterSyn, Traffic::RandomNoSyn, Traffic::Completing]),
+                Kind::Tcp => *r.pick(&[Traffic::BinaryAfterSyn, Traffic::EndlessHttpHead, Traffic::RandomNoSyn, Traffic::Completing, Traffic::RepeatedSynWithData]),
+                _ => *r.pick(&[Traffic::EndlessHttpHead, Traffic::EndlessFoldedHead, Traffic::RepeatedSynWithData, Traffic::TlsManyNonHelloRecords, Traffic::WrongKindThenEndless, Traffic::WrongKindThenEndless, Traffic::EndlessHttpResponseHead, Traffic::BinaryAfterSyn, Traffic::TlsHugeDeclared, Traffic::TlsAppDataAfterNonHello, Traffic::RandomNoSyn, Traffic::Completing]),
             };
             let n_segs = match tier {
                 Tier::Quick => *r.pick(&[200usize, 600, 1000, 2000]),
